@@ -23,7 +23,7 @@ type C16Case struct {
 	From      int64       `json:"from"`
 	Until     int64       `json:"until"`
 	ArchiveID int         `json:"archive_id"`
-	Fault     string      `json:"fault"` // none textout-nodir textout-isdir textout-devfull missing-src corrupt-src dest-notdir dest-proc
+	Fault     string      `json:"fault"` // none textout-nodir textout-isdir textout-devfull missing-src corrupt-src corrupt-dest dest-notdir dest-proc
 	Corrupt   []byte      `json:"corrupt,omitempty"`
 	CopyNaN   bool        `json:"copy_nan"`
 	Header    bool        `json:"header"`
@@ -58,6 +58,7 @@ func runC16(c C16Case, ev *Evid) (fs []Finding) {
 	case "corrupt-src":
 		os.WriteFile(filepath.Join(srcBase, firstRel), c.Corrupt, 0644)
 	}
+	globDiff := c.Cmd == "diff" && len(c.Files) > 1 && c.DestMode != "absent" && c.Fault != "missing-src" && c.Fault != "corrupt-src" && c.Fault != "corrupt-dest"
 	// two runs: the baseline (text-out to a regular file, no text-out fault) and the faulty one
 	type runResult struct {
 		err     error
@@ -70,6 +71,9 @@ func runC16(c C16Case, ev *Evid) (fs []Finding) {
 		if c.DestMode != "absent" && c.Cmd != "generate" {
 			var dfiles []TreeFile
 			df := first
+			if globDiff {
+				df = c.Files[len(c.Files)-1]
+			}
 			if c.Cmd == "sum-copy" || c.Cmd == "sum-diff" {
 				df.Name = "sum.wsp"
 			}
@@ -83,6 +87,21 @@ func runC16(c C16Case, ev *Evid) (fs []Finding) {
 					add("setup", "%v", err)
 					return runResult{}, false
 				}
+			}
+		}
+		if c.Fault == "corrupt-dest" && c.Cmd != "generate" {
+			// an existing destination whose header is damaged (same cases as the corrupt source)
+			df := first
+			if c.Cmd == "sum-copy" || c.Cmd == "sum-diff" {
+				df.Name = "sum.wsp"
+			}
+			p := filepath.Join(destBase, df.Dir, df.Name)
+			os.MkdirAll(filepath.Dir(p), 0755)
+			if b, err := os.ReadFile(p); err == nil && len(c.Corrupt) == 4 {
+				copy(b, c.Corrupt) // only the aggregation-method field is replaced
+				os.WriteFile(p, b, 0644)
+			} else {
+				os.WriteFile(p, c.Corrupt, 0644)
 			}
 		}
 		effDest := destBase
@@ -106,6 +125,11 @@ func runC16(c C16Case, ev *Evid) (fs []Finding) {
 			cc = &cmd.ViewRawCommand{SrcBase: srcBase, SrcRelPath: firstRel, From: from, Until: unt, ArchiveID: c.ArchiveID, ShowHeader: c.Header, SortsByTime: c.Sort, TextOut: to}
 		case "diff":
 			cc = &cmd.DiffCommand{SrcBase: srcBase, SrcRelPath: firstRel, DestBase: effDest, From: from, Until: unt, ArchiveID: c.ArchiveID, TextOut: to}
+			if globDiff {
+				// several source files, a destination only for the last one: every earlier file is "missing on
+				// the destination side" and the run must not end clean
+				cc.(*cmd.DiffCommand).SrcRelPath = first.Dir + "/*.wsp"
+			}
 		case "copy":
 			cc = &cmd.CopyCommand{SrcBase: srcBase, SrcRelPath: firstRel, DestBase: effDest, AggregationMethod: wt.AggregationMethod(l.Method), XFilesFactor: l.XFF, ArchiveInfoList: wtArchives(l), From: from, Until: unt, ArchiveID: c.ArchiveID, CopyNaN: c.CopyNaN, TextOut: to}
 		case "sum":
@@ -148,6 +172,9 @@ func runC16(c C16Case, ev *Evid) (fs []Finding) {
 			return
 		case srcBad:
 			add("silent-success", "%s: the source is missing or corrupt but the command reported success", desc)
+			return
+		case c.Fault == "corrupt-dest" && c.DestMode != "absent" && (c.Cmd == "diff" || c.Cmd == "copy" || c.Cmd == "sum-copy" || c.Cmd == "sum-diff"):
+			add("silent-success", "%s: the existing destination's header is damaged but the command reported success", desc)
 			return
 		}
 		destFile := filepath.Join(base.destDir, first.Dir, first.Name)
@@ -247,6 +274,10 @@ func runC16(c C16Case, ev *Evid) (fs []Finding) {
 				}
 			}
 		case "diff":
+			if globDiff {
+				add("silent-success", "%s: glob diff over %d source files of which only the last has a destination reported no difference", desc, len(c.Files))
+				return
+			}
 			if !fileExists(destFile) {
 				add("silent-success", "%s: the destination file is missing but diff reported no difference", desc)
 				return
@@ -364,8 +395,10 @@ func genC16(t *rapid.T) C16Case {
 	case r < 6:
 		c.ArchiveID = rapid.SampledFrom([]int{len(l.Archives), len(l.Archives) + 1, -2, 100}).Draw(t, "badArchive")
 	}
-	c.Fault = rapid.SampledFrom([]string{"none", "none", "none", "textout-nodir", "textout-isdir", "textout-devfull", "missing-src", "corrupt-src", "dest-notdir", "dest-proc"}).Draw(t, "fault")
-	if c.Fault == "corrupt-src" {
+	c.Fault = rapid.SampledFrom([]string{"none", "none", "none", "textout-nodir", "textout-isdir", "textout-devfull", "missing-src", "corrupt-src", "corrupt-dest", "dest-notdir", "dest-proc"}).Draw(t, "fault")
+	if c.Fault == "corrupt-dest" && rapid.Bool().Draw(t, "methodOnly") {
+		c.Corrupt = []byte{0, 0, 0, byte(rapid.SampledFrom([]int{0, 7, 8, 9, 255}).Draw(t, "badMethod"))}
+	} else if c.Fault == "corrupt-src" || c.Fault == "corrupt-dest" {
 		c.Corrupt, _ = mutateBytes(t, genValidBytes(t, "file"))
 		if rapid.Bool().Draw(t, "garbage") {
 			c.Corrupt = rapid.SliceOfN(rapid.Byte(), 0, 60).Draw(t, "garbageBytes")
